@@ -162,6 +162,8 @@ def histories(rnd, n, maxlen):
         domain = rnd.choice(["dec", "dec", "grid64"])
         pool = [T.gen_itier(rnd, domain, nmax=4, name="A"), T.gen_itier(rnd, domain, nmax=3, name="B"),
                 T.gen_ptier(rnd, domain, nmax=4, name="C")]
+        if rnd.random() < 0.3:
+            pool[2] = T.with_dup_times(rnd, pool[2])     # several points at one time (finding A24 lived there)
         for step in range(rnd.randint(1, maxlen)):
             c = gen_step(rnd, pool, domain)
             c.update(grid=domain != "dec", hist=h, step=step)
@@ -195,6 +197,11 @@ def corpus():
     for mode in ("error", "replace", "merge"):
         yield {"op": "iinsert", "tier": it, "entry": [2.5, 2.5, "z"], "mode": mode, "report": "silence", "grid": True}
         yield {"op": "iinsert", "tier": it, "entry": [2.75, 2.25, "z"], "mode": mode, "report": "silence", "grid": True}
+    # A24 (fixed): several points at one time
+    pd = {"k": "P", "name": "P", "es": [[10.0, "a"], [40.0, "b"], [40.0, "c"], [70.0, "d"]], "lo": 0.0, "hi": 100.0}
+    for mode in ("error", "replace", "merge"):
+        yield {"op": "pinsert", "tier": pd, "entry": [40.0, " n "], "mode": mode, "report": "silence", "grid": True}
+    yield {"op": "punion", "tier": pd, "other": pd, "grid": True}
 
 
 def strip_units(rnd, tier):
